@@ -429,7 +429,17 @@ pub fn run_fault_case<H: HK>(case: &FaultCase, fp: &FaultParams, scratch: &Scrat
         let cp = shadow.clone();
         let pre = r.model.clone();
         let last = &hist.steps[n - 1];
+        // in half of the cases one page write of the operation under test (the k-th to ln or bbn) is acknowledged late
+        // (held back a few ms inside the hook before it is issued): a sync that does not wait for every completion
+        // before it fsyncs then leaves that write outside the fsync's coverage
+        let mut hs = SplitMix(case.choice_seed ^ 0x401d);
+        let held = hs.below(2) == 0;
+        if held {
+            let class = if hs.below(3) == 0 { "bbn" } else { "ln" };
+            rec.set_hold_nth(Some((class, 4_000 + hs.below(8_000))), hs.below(6) as usize);
+        }
         let outcome = r.step(n - 1, last);
+        rec.set_hold(None);
         let tr = rec.take();
         let returned_ok = match outcome {
             Ok(StepOutcome::Done) => true,
@@ -444,6 +454,9 @@ pub fn run_fault_case<H: HK>(case: &FaultCase, fp: &FaultParams, scratch: &Scrat
         let cfg = r.cfg.clone();
         let mut info = std::mem::take(&mut r.info);
         info.add("events_under_test", tr.len() as u64);
+        if held {
+            info.bump("ops_with_a_late_acknowledged_page_write");
+        }
         let op_name = match last {
             Step::Commit(c) => match c.via {
                 hist::Via::Session => "commit_session",
